@@ -29,6 +29,17 @@ var listMutators = map[string]bool{"InsertValue": true, "InsertValues": true, "A
 // sizeResolver makes GetSize()/len()/IsEmpty() of anything rooted at the
 // receiver's storage evaluate to the symbol `size`.
 func sizeResolver(info *types.Info, recv types.Object, symName string) func(e ast.Expr) (Val, bool) {
+	return sizeResolverEnv(nil, info, recv, symName)
+}
+
+// sizeResolverEnv: as sizeResolver; with env given, receivers of inlined helper frames count too.
+func sizeResolverEnv(env *symEnv, info *types.Info, recv types.Object, symName string) func(e ast.Expr) (Val, bool) {
+	recvRooted := func(info *types.Info, x ast.Expr, recv types.Object) bool {
+		if env != nil && env.isRecvRooted(x) {
+			return true
+		}
+		return recvRooted(info, x, recv)
+	}
 	return func(e ast.Expr) (Val, bool) {
 		call, ok := e.(*ast.CallExpr)
 		if !ok {
